@@ -89,6 +89,7 @@ def check(P, rep):
                 rep.check(en in ('rotate_signers', '__constructor') and (inc or zero), 'C08.R4', '%s:epoch-writer' % en,
                           'Epoch is written only as stored Epoch + 1 (checked) on the rotation path, or 0 at construction', esite(g, e), e.describe())
     rep.floor('retention/epoch writers', nw, 4)
+    include_rules(P, rep, 'C08.R5', 'c03', lambda o: o['rule'] in ('C03.R2', 'C03.R5'), 'every installed set is registered under exactly its installation epoch, also at construction (C03.R2/R5)', 12)
     # the epoch counter counts installed sets: every epoch bump is followed, before any success exit, by the registration of a set under
     # exactly that epoch (otherwise the window is measured against epochs that installed nothing)
     for en in ('rotate_signers', '__constructor'):
